@@ -3,7 +3,7 @@
 ID="$1"; O="$2"; X="$3"; shift 3
 cd /verif
 log=$(tools/confirm_mutant.sh "$O" "$X" 2>&1)
-echo "$log" | grep -E "^---|test result|PATCH|panicked" | head -14
+echo "$log" | grep -E "^---|test result|PATCH|panicked|demo exit|PASS|FAIL" | head -14
 D=seeded/$ID-$X; mkdir -p $D
-cp /tmp/cm/current.patch $D/patch.diff; cp "$O/${X}_demo.rs" $D/demo.rs 2>/dev/null; cp "$O/${X}_meta.json" $D/agent_meta.json
+cp /tmp/cm/current.patch $D/patch.diff; cp "$O/${X}_demo.rs" $D/demo.rs 2>/dev/null; cp "$O/${X}_demo.py" $D/demo.py 2>/dev/null; cp "$O/${X}_meta.json" $D/agent_meta.json
 for c in "$@"; do tools/mutant.sh /verif/$D/patch.diff $c; done
